@@ -16,7 +16,10 @@ class FreshCtx:
 
     def tt(self, r=None, writable=False):
         r = r or int(self.rng.integers(1, 4))
-        return make_tt(self.n, r, int(self.rng.integers(1 << 30)), dist='uniform')
+        Y = make_tt(self.n, r, int(self.rng.integers(1 << 30)), dist='uniform')
+        if self.rng.random() < 0.04:
+            Y[int(self.rng.integers(0, len(Y)))] *= 0.0        # the exactly-zero tensor is a valid argument too
+        return Y
 
     def tt_shape(self, n, r):
         return make_tt(list(n), r, int(self.rng.integers(1 << 30)), dist='uniform')
